@@ -41,6 +41,8 @@ const (
 	keyNoName      = "entry-unresolvable-by-name-after-replay"
 	// a flush round went on (data file, acknowledgement) after its index flush had failed
 	keyAfterIdxErr = "data-flushed-after-failed-index-flush"
+	// database.FlushMeta returned nil although one of its stores failed to flush
+	keyMetaErrSwallowed = "data-flushed-after-failed-meta-flush"
 )
 
 // ---------------------------------------------------------------- shadow of the dictionaries
@@ -184,6 +186,8 @@ type caseRun struct {
 	terminal      bool
 	lossFate      map[int64]string // entry -> stable key of a loss the harness provoked on purpose
 	innerK        int              // table-file index for the next crash inside a flush call (-1: random)
+	innerMan      bool             // ... the crash point is the innerK-th MANIFEST record sync of the call instead
+	innerAfter    bool             // ... right after that sync (the record is durable) instead of right before it
 	frozenPending bool             // a failed Flush left an immutable memory database behind
 	leaders       []models.NodeID  // the leaders whose log partitions of the family this node holds
 	cur           models.NodeID    // the lane the partition ops go to
@@ -793,7 +797,35 @@ func (r *caseRun) opFlushMetaFail(store string) {
 		return
 	}
 	if err == nil {
-		r.failHarness("flush meta", fmt.Errorf("table creation of store %s failed but FlushMeta reported success", store))
+		// the metadata flush swallowed the error: doFlush goes on with the shard index and the family data and
+		// acknowledges the log although the names of that data are not durable. Shown on the real node: the
+		// rest of the round, a crash image, restart, lookups by name of what is in the data files.
+		r.broken = true
+		r.c.Fail(keyMetaErrSwallowed, fmt.Sprintf("the table file of the metadata store %q could not be created during database.FlushMeta, but FlushMeta returned nil: "+
+			"the flush job continues with the index and the family data", store))
+		if !r.guard("flush index", r.n.flushIndex) || !r.guard("flush family", r.n.flushFamily) {
+			return
+		}
+		img, ierr := r.newRoot()
+		if ierr == nil {
+			ierr = copyTree(r.n.root, img)
+		}
+		if ierr != nil {
+			return
+		}
+		r.n.close()
+		r.n = nil
+		var n *node
+		if !r.guard("recover", func() (err error) { n, err = openNode(img, r.famTime, r.expired, r.leaders...); return err }) {
+			return
+		}
+		r.n = n
+		r.n.use(r.cur)
+		obs := r.observeDurable()
+		for _, q := range obs.unres {
+			r.c.Fail(keyMetaErrSwallowed, fmt.Sprintf("entry %d (%s host=%s): after the swallowed metadata flush error the round flushed its rows and acknowledged the log (ack %d); "+
+				"after a crash the rows are in a data file but do not resolve by metric name and tag", q, metricName(r.entries[q].Metric), tagValue(r.entries[q].Tagv), r.n.pos().ack))
+		}
 		return
 	}
 	r.sh.metric.prepare(r.sh.swapOnEmpty)
@@ -1266,19 +1298,36 @@ func (r *caseRun) opFlushInnerCrash(kind int) bool {
 	if k < 0 {
 		k = r.rng.Intn(4)
 	}
+	man, after := r.innerMan, r.innerAfter
+	if man && kind == innerData {
+		k %= 2 // one record per data flush in the code as it is; a second one only if the commit was split
+	}
 	n, img := 0, ""
 	var imgErr error
 	root := r.n.root
-	tableHook = func(fileName string) {
-		if !strings.HasPrefix(fileName, root) {
-			return
-		}
+	take := func() {
 		if n == k && img == "" {
 			if img, imgErr = r.newRoot(); imgErr == nil {
 				imgErr = copyTree(root, img)
 			}
 		}
 		n++
+	}
+	if man {
+		// crash point = a manifest record of one of the call's kv commits: right before its sync the table
+		// file is complete but in no manifest, right after it the record (table + sequences) is durable
+		// while nothing of the process's memory has been updated
+		manifestHook = func(fileName string, aft bool) {
+			if strings.HasPrefix(fileName, root) && aft == after {
+				take()
+			}
+		}
+	} else {
+		tableHook = func(fileName string) {
+			if strings.HasPrefix(fileName, root) {
+				take()
+			}
+		}
 	}
 	var ok bool
 	var fo flushObs
@@ -1290,7 +1339,7 @@ func (r *caseRun) opFlushInnerCrash(kind int) bool {
 	default:
 		fo, ok = r.runFlush()
 	}
-	tableHook = nil
+	tableHook, manifestHook = nil, nil
 	if !ok {
 		return false
 	}
@@ -1299,7 +1348,7 @@ func (r *caseRun) opFlushInnerCrash(kind int) bool {
 		return false
 	}
 	if img == "" {
-		// fewer than k+1 tables were created: the call completed; report it as usual
+		// fewer than k+1 tables / records were written: the call completed; report it as usual
 		switch kind {
 		case innerMeta:
 			r.sh.metric.prepare(r.sh.swapOnEmpty)
@@ -1317,7 +1366,41 @@ func (r *caseRun) opFlushInnerCrash(kind int) bool {
 		}
 		return false
 	}
-	r.c.Branch([]string{"crash-inside-FlushMeta", "crash-inside-FlushIndex", "crash-inside-family-Flush"}[kind])
+	if man && kind == innerData {
+		// the dictionaries are not touched by a data flush: the image is a full crash point of the model.
+		// Before the first record: no durable effect (the table file is an orphan). After the first record:
+		// the data commit (table + sequences in ONE record) has happened, the log is not acknowledged.
+		// (k = 1 is only reached when a data flush writes a second record.)
+		if after == (k == 0) {
+			r.sh.freeze(r.entries)
+			r.emitFreeze(fo)
+			if fo.mid != nil {
+				r.c.Op("dcommit", *fo.mid)
+			} else {
+				r.c.Op("dcommit", fo.after)
+			}
+			r.c.Branch("crash-after-data-manifest-record")
+		} else if !after {
+			r.c.Branch("crash-before-data-manifest-record")
+		} else {
+			// after a SECOND record: the whole flush but the acknowledgement
+			r.sh.freeze(r.entries)
+			r.emitFreeze(fo)
+			if fo.mid != nil {
+				r.c.Op("dcommit", *fo.mid)
+			} else {
+				r.c.Op("dcommit", fo.after)
+			}
+			r.c.Branch("crash-after-second-data-manifest-record")
+		}
+		r.crashTo(img)
+		return true
+	}
+	if man {
+		r.c.Branch([]string{"crash-at-manifest-record-in-FlushMeta", "crash-at-manifest-record-in-FlushIndex"}[kind])
+	} else {
+		r.c.Branch([]string{"crash-inside-FlushMeta", "crash-inside-FlushIndex", "crash-inside-family-Flush"}[kind])
+	}
 	r.terminal = true
 	r.n.close()
 	r.n = nil
@@ -1566,7 +1649,30 @@ func (r *caseRun) opRecover(img string, partial bool) {
 	}
 	p := n.pos()
 	if partial {
-		return // the dictionaries were imaged half flushed: resolution is checked after the replay (finish)
+		// the dictionaries were imaged half flushed: resolution is checked after the replay (finish).
+		// Exception: rows that were frozen, flushed and acknowledged while a name of theirs was only in
+		// memory (the shadow recorded the fate at the freeze) and that do not resolve in this image.
+		// That is the recorded loss itself; replaying further entries with the same names on this node
+		// would only show its after-effects (ids are issued again), so the case ends here under that key.
+		for _, s := range obs.unres {
+			if f := r.sh.fate[s]; f == keyWindow || f == keyWedge || f == keyAfterIdxErr {
+				r.tainted = true
+				r.c.Fail(f, fmt.Sprintf("entry %d (%s host=%s): rows are in a data file and the log is acknowledged up to %d, but its names do not resolve "+
+					"in an image taken inside a later flush: they were not durable when the rows were frozen and the process died before a later dictionary flush completed",
+					s, metricName(r.entries[s].Metric), tagValue(r.entries[s].Tagv), p.ack))
+			}
+		}
+		// likewise a durable index posting whose names were only in memory when the index was flushed
+		// (an index flush that no metadata flush preceded): replaying the same names on this node finds the
+		// series in the index and never creates its tag value again
+		for _, pk := range obs.iunres {
+			if f := r.sh.idxFate[pk]; f == keyWindow || f == keyWedge {
+				r.tainted = true
+				r.c.Fail(f, fmt.Sprintf("series %s: its index posting is durable but its metric name / tag value does not resolve in an image taken inside a later flush: "+
+					"they were not durable when the index was flushed and the process died before a later metadata flush completed", pk))
+			}
+		}
+		return
 	}
 	// clause 4: flushed data resolves by name
 	for _, s := range obs.unres {
@@ -1999,6 +2105,52 @@ func (r *caseRun) crashInsideIndexFlush(k int) {
 	}
 }
 
+// crashAtManifestRecord: two entries with new names, a flush round in doFlush's order; the node dies inside
+// the round's FlushMeta / FlushIndex / family.Flush right before (after = false) or right after the sync
+// of the k-th manifest record that call writes. Data flush, before: the table file exists but no manifest
+// names it (orphan), nothing is stored or acknowledged, both entries are replayed. Data flush, after: table
+// and sequences are durable in one record, the log is not acknowledged, nothing may be applied again.
+func (r *caseRun) crashAtManifestRecord(kind, k int, after bool) {
+	r.opAppend(0, 0)
+	r.opApply()
+	r.opAppend(1, 1)
+	r.opApply()
+	r.innerK, r.innerMan, r.innerAfter = k, true, after
+	defer func() { r.innerK, r.innerMan, r.innerAfter = -1, false, false }()
+	if kind == innerMeta {
+		if r.opFlushInnerCrash(innerMeta) {
+			return
+		}
+	} else {
+		r.opFlushMeta()
+	}
+	if kind == innerIndex {
+		if r.opFlushInnerCrash(innerIndex) {
+			return
+		}
+	} else {
+		r.opFlushIndex()
+	}
+	if kind != innerData || !r.opFlushInnerCrash(innerData) {
+		if kind != innerData {
+			r.opFlushData(noCrash, false)
+		}
+		r.opCrash()
+		return
+	}
+	if r.stop() {
+		return
+	}
+	// the node restarted from the image: replay, one more entry, an orderly round, crash
+	r.applyAll()
+	r.opAppend(2, 0)
+	r.opApply()
+	r.opFlushMeta()
+	r.opFlushIndex()
+	r.opFlushData(noCrash, false)
+	r.opCrash()
+}
+
 // expiredFamily: the WAL garbage collector on a family whose write window closed hours ago.
 func (r *caseRun) stop() bool { return r.broken || r.tainted || r.terminal || r.n == nil }
 
@@ -2256,6 +2408,8 @@ func (r *caseRun) randomCase(disciplined bool) {
 			inner := -1
 			if disciplined && rng.Intn(5) == 0 {
 				inner = rng.Intn(3)
+				// half of them at a manifest record of the call (before / after its sync) instead of a table file
+				r.innerMan, r.innerAfter = rng.Intn(2) == 0, rng.Intn(2) == 0
 			}
 			if inner == innerMeta && r.opFlushInnerCrash(innerMeta) {
 				continue
@@ -2334,7 +2488,7 @@ func (r *caseRun) randomCase(disciplined bool) {
 // ---------------------------------------------------------------- Run
 
 // lastScripted: cases 0..lastScripted are fixed histories
-const lastScripted = 25
+const lastScripted = 31
 
 func (area) Run(c *core.Ctx) error {
 	repo := os.Getenv("VERIF_REPO")
@@ -2435,6 +2589,10 @@ func (area) Run(c *core.Ctx) error {
 				c.Branch("shutdown-scripted")
 				x := [][4]int{{0, -1, 0, crashMid}, {0, -1, 0, crashAck}, {1, -1, 1, crashMid}, {0, -1, 0, noCrash}}[i-22]
 				r.shutdownCase(x[0] == 1, x[1], x[2], x[3])
+			case i >= 26 && i <= 31:
+				c.Branch("crash-at-manifest-record-scripted")
+				x := [][3]int{{innerData, 0, 0}, {innerData, 0, 1}, {innerMeta, 0, 1}, {innerMeta, 1, 0}, {innerIndex, 0, 1}, {innerIndex, 2, 0}}[i-26]
+				r.crashAtManifestRecord(x[0], x[1], x[2] == 1)
 			case i%4 == 3:
 				c.Branch("wild")
 				r.randomCase(false)
